@@ -54,6 +54,7 @@ fn main() {
                 "C04" => checks::c04::run(&tier, &args),
                 "C06" => checks::c06::run(&tier, &args),
                 "C05" => checks::c05::run(&tier, &args),
+                "C14" => checks::c14::run(&tier, &args),
                 _ => { eprintln!("unknown property {id}"); 2 }
             };
             std::process::exit(code);
